@@ -9,15 +9,30 @@ import random
 from dataclasses import dataclass
 from typing import Annotated, ForwardRef, List, NewType, Optional
 
-from adaptix import AdornedRetort, CannotProvide, Chain, DebugTrail, P, Provider, ProviderNotFoundError, Retort, bound, dumper, loader
+from adaptix import (
+    AdornedRetort,
+    CannotProvide,
+    Chain,
+    DebugTrail,
+    P,
+    Provider,
+    ProviderNotFoundError,
+    Retort,
+    bound,
+    create_loc_stack_checker,
+    dumper,
+    loader,
+)
 from adaptix._internal.morphing.request_cls import DebugTrailRequest, DumperRequest, LoaderRequest, StrictCoercionRequest
 from adaptix._internal.provider.facade.provider import bound_by_any
 from adaptix._internal.provider.request_checkers import AlwaysTrueRequestChecker
+from adaptix._internal.provider.value_provider import ValueProvider
 
 from .common import digest
 from .sig import sig_value
 
 NAME = "bussim"
+_PRED_OBJS = {}     # predicate objects of the current scenario: items naming the same predicate share one object
 KEY_NEEDS_MINIMISATION = False   # the violation class is decided mechanically at execution time
 STABLE_KEY_FIELDS = ("class", "type", "dir", "retort")
 
@@ -52,6 +67,20 @@ class M:
 
 
 @dataclass
+class M2:
+    """Twin of M: its fields are equal *locations* (name, type, default) under another parent."""
+    x: int
+    a: A
+    s: str
+
+
+@dataclass
+class Both:
+    m: M
+    m2: M2
+
+
+@dataclass
 class RN:
     """Self-referential model: its nested requests go through a recursion stub."""
     v: A
@@ -65,10 +94,11 @@ AnnA = Annotated[A, "m"]
 # builtin tail unwraps them and re-sends the request for A from the top of the recipe
 FWD = ForwardRef("NoSuchName")     # a request type that cannot be normalised: no exact-type predicate matches it
 TYPES = {"A": A, "B": B, "C1": C1, "int": int, "str": str, "M": M, "ListA": ListA, "RN": RN,
-         "OptA": Optional[A], "AnnA": AnnA, "NtA": NtA, "Fwd": FWD}
+         "OptA": Optional[A], "AnnA": AnnA, "NtA": NtA, "Fwd": FWD, "M2": M2, "Both": Both}
 TNAME = {A: "A", B: "B", C1: "C1", int: "int", str: "str", M: "M", ListA: "ListA", Abs: "Abs", RN: "RN",
-         Optional[RN]: "OptRN", type(None): "None", Optional[A]: "OptA", AnnA: "AnnA", NtA: "NtA", FWD: "Fwd"}
-MODELS = {"M": (M, [("x", "int"), ("a", "A"), ("s", "str")]), "RN": (RN, [("v", "A"), ("next", "OptRN")])}
+         Optional[RN]: "OptRN", type(None): "None", Optional[A]: "OptA", AnnA: "AnnA", NtA: "NtA", FWD: "Fwd", M2: "M2", Both: "Both"}
+MODELS = {"M": (M, [("x", "int"), ("a", "A"), ("s", "str")]), "RN": (RN, [("v", "A"), ("next", "OptRN")]),
+          "M2": (M2, [("x", "int"), ("a", "A"), ("s", "str")]), "Both": (Both, [("m", "M"), ("m2", "M2")])}
 M_FIELDS = MODELS["M"][1]
 
 
@@ -110,10 +140,34 @@ PREDS = {
     "P[ListA][A]": (lambda: P[List[A]][A], lambda st: len(st) >= 2 and st[-2][0] == "ListA" and _last(st)[0] == "A", False),
     "RN": (lambda: RN, lambda st: _last(st)[0] == "RN", True),
     "None": (lambda: None, lambda st: _last(st)[0] == "None", True),
+    "M2": (lambda: M2, lambda st: _last(st)[0] == "M2", True),
+    "P[M2].x": (lambda: P[M2].x, lambda st: len(st) >= 2 and st[-2][0] == "M2" and _last(st)[1] == "x", False),
+    "P[Both].m2": (lambda: P[Both].m2, lambda st: len(st) >= 2 and st[-2][0] == "Both" and _last(st)[1] == "m2", False),
     "next": (lambda: "next", lambda st: _last(st)[1] == "next", False),
     "P[RN].next": (lambda: P[RN].next, lambda st: len(st) >= 2 and st[-2][0] == "RN" and _last(st)[1] == "next", False),
     "P[RN].v": (lambda: P[RN].v, lambda st: len(st) >= 2 and st[-2][0] == "RN" and _last(st)[1] == "v", False),
+    # n-ary XOR is parity
+    "P[A]^P.a^P[M].a": (lambda: P[A] ^ P.a ^ P[M].a,
+                        lambda st: ((_last(st)[0] == "A") + (_last(st)[1] == "a")
+                                    + (len(st) >= 2 and st[-2][0] == "M" and _last(st)[1] == "a")) % 2 == 1, False),
+    "P[int]^P.x^ANY": (lambda: P[int] ^ P.x ^ P.ANY,
+                       lambda st: ((_last(st)[0] == "int") + (_last(st)[1] == "x") + 1) % 2 == 1, False),
+    # patterns derived from a base pattern object that has been built (used as a predicate) before
+    "base(P[M]).x": (lambda: _derived("P[M]base", lambda: P[M]).x,
+                     lambda st: len(st) >= 2 and st[-2][0] == "M" and _last(st)[1] == "x", False),
+    "base(P[M].a).x": (lambda: _derived("P[M].abase", lambda: P[M].a).x, lambda st: False, False),
+    "base(P[RN]).next": (lambda: _derived("P[RN]base", lambda: P[RN]).next,
+                         lambda st: len(st) >= 2 and st[-2][0] == "RN" and _last(st)[1] == "next", False),
 }
+
+
+def _derived(key, make):
+    """A base pattern object shared within the scenario; it is turned into a checker (as passing it to a
+    provider would) before anything is derived from it."""
+    if key not in _PRED_OBJS:
+        _PRED_OBJS[key] = make()
+        create_loc_stack_checker(_PRED_OBJS[key])
+    return _PRED_OBJS[key]
 
 
 def pred_match(name, st):
@@ -129,7 +183,8 @@ def item_match(it, st):
 
 GROUPABLE = [k for k, v in PREDS.items() if v[2]]
 NONGROUPABLE = [k for k, v in PREDS.items() if not v[2]]
-KINDS = ["plain", "plain", "first", "last", "answer", "decline", "decline", "terminal", "delegate", "crash", "optprobe"]
+KINDS = ["plain", "plain", "first", "last", "answer", "decline", "decline", "terminal", "delegate", "crash", "optprobe",
+         "optprobe", "optset"]
 
 
 # ------------------------------------------------------------------------------------------------
@@ -195,7 +250,7 @@ def _mark(tag, i):
     return fn
 
 
-_PRED_OBJS = {}     # predicate objects of the current scenario: items naming the same predicate share one object
+_BUILT = {}         # marker providers made by loader()/dumper(), by item index
 
 
 def pred_obj(name):
@@ -213,10 +268,13 @@ def build_item(it, log, inner=None):
         return bound_by_any([pred_obj(p) for p in it["pred"][4:].split(";")], Faulty(i, kind, log))
     pred = pred_obj(it["pred"])
     if kind in ("plain", "first", "last"):
+        if i in _BUILT:
+            return _BUILT[i]        # the very same provider object at a second position of the full recipe
         ch = {"plain": None, "first": Chain.FIRST, "last": Chain.LAST}[kind]
         tag = {"plain": "p", "first": "f", "last": "l"}[kind]
         mk = loader if it["dir"] == "L" else dumper
-        return mk(pred, _mark(tag, i), ch)
+        _BUILT[i] = mk(pred, _mark(tag, i), ch)
+        return _BUILT[i]
     if kind == "retort":
         if inner is not None and i in inner:
             obj = inner[i]
@@ -225,6 +283,9 @@ def build_item(it, log, inner=None):
             if inner is not None:
                 inner[i] = obj
         return obj if it["pred"] == "ANY" and it.get("unbound") else bound(pred, obj)
+    if kind == "optset":
+        # an option override bound to a location: answers StrictCoercionRequest only
+        return bound(pred, ValueProvider(StrictCoercionRequest, it["value"]))
     if it.get("pred2"):
         # two nested bounds: the bounding provider has to AND its predicate with the inner one
         return bound(pred, bound(pred_obj(it["pred2"]), Faulty(i, kind, log)))
@@ -312,7 +373,7 @@ class Model:
             kind = it["kind"]
             if kind in ("plain", "first", "last") and it["dir"] != d:
                 continue
-            if not item_match(it, st):
+            if kind == "optset" or not item_match(it, st):
                 continue
             idx = it["idx"]
             if kind == "plain":
@@ -363,6 +424,8 @@ class Model:
         for it in flatten(spec):
             if it["kind"] == "retort" and pred_match(it["pred"], st):
                 return self.opt(it["sub"], st, name)
+            if it["kind"] == "optset" and name == "strict_coercion" and item_match(it, st):
+                return it["value"]
         return spec["opts"].get(name, "ALL" if name == "debug_trail" else True)
 
     def strict(self, spec, st):
@@ -436,6 +499,11 @@ def token(tname, d):
         return {"x": [], "a": [], "s": []} if d == "L" else M([], [], [])
     if tname == "ListA":
         return [[], []]
+    if tname == "M2":
+        return {"x": [], "a": [], "s": []} if d == "L" else M2([], [], [])
+    if tname == "Both":
+        return ({"m": {"x": [], "a": [], "s": []}, "m2": {"x": [], "a": [], "s": []}} if d == "L"
+                else Both(M([], [], []), M2([], [], [])))
     if tname == "RN":
         return ({"v": [], "next": {"v": [], "next": {"v": [], "next": None}}} if d == "L"
                 else RN([], RN([], RN([], None))))
@@ -452,6 +520,10 @@ def norm_out(v):
         return {"__M__": {f: norm_out(getattr(v, f)) for f, _ in M_FIELDS}}
     if isinstance(v, RN):
         return {"__RN__": {"v": norm_out(v.v), "next": norm_out(v.next)}}
+    if isinstance(v, M2):
+        return {"__M2__": {f: norm_out(getattr(v, f)) for f, _ in M_FIELDS}}
+    if isinstance(v, Both):
+        return {"__Both__": {"m": norm_out(v.m), "m2": norm_out(v.m2)}}
     return v
 
 
@@ -510,6 +582,8 @@ def gen_items(rng, n, counter, depth=0):
         idx = counter[0]
         counter[0] += 1
         it = {"idx": idx, "pred": pn, "kind": kind}
+        if kind == "optset":
+            it["value"] = rng.random() < 0.5
         if kind in ("plain", "first", "last"):
             it["dir"] = "L" if rng.random() < 0.7 else "D"
         multi = rng.random() < 0.10
@@ -521,9 +595,13 @@ def gen_items(rng, n, counter, depth=0):
             it["sub"] = {"full": rng.random() < 0.5,
                          "opts": {"strict_coercion": rng.random() < 0.5, "debug_trail": rng.choice(["ALL", "FIRST", "DISABLE"])},
                          "instance": gen_items(rng, rng.randint(1, 3), counter, 1), "classes": []}
-        if multi and it["kind"] not in ("plain", "first", "last", "retort"):
+        if depth == 0 and items and rng.random() < 0.07:
+            prev = [x for x in items if x["kind"] in ("plain", "first", "last")]
+            if prev:
+                items.append(dict(rng.choice(prev)))     # the same provider object again (same idx)
+        if multi and it["kind"] not in ("plain", "first", "last", "retort", "optset"):
             it["pred"] = "any:" + ";".join(rng.sample(sorted(PREDS), rng.randint(2, 3)))
-        elif it["kind"] not in ("plain", "first", "last", "retort") and rng.random() < 0.08:
+        elif it["kind"] not in ("plain", "first", "last", "retort", "optset") and rng.random() < 0.08:
             it["pred2"] = rng.choice(sorted(PREDS))
         items.append(it)
     return items
@@ -543,6 +621,10 @@ def gen(seed, cfg=None):
     if spec["classes"] and rng.random() < 0.3:
         spec["mixin"] = gen_items(rng, rng.randint(1, 2), counter)
     ext = gen_items(rng, rng.randint(1, 2), counter) if rng.random() < 0.3 else None
+    if ext is not None and rng.random() < 0.3:
+        reusable = [x for x in flatten(spec) if x["kind"] in ("plain", "first", "last")]
+        if reusable:
+            ext.append(dict(rng.choice(reusable)))       # extend() with a provider object the recipe already holds
     repl = None
     if rng.random() < 0.2:
         repl = rng.choice([{"strict_coercion": not spec["opts"]["strict_coercion"]},
@@ -602,6 +684,7 @@ def derived_specs(scn):
 
 def execute(scn, refs):  # noqa: C901, PLR0912
     _PRED_OBJS.clear()
+    _BUILT.clear()
     log = []
     built_inner = {}
     base = build_retort(scn["spec"], log, built_inner)
